@@ -115,14 +115,27 @@ class WriterEval:
         pi = ci.find_method("__post_init__")
         if pi is None:
             return None
+        from . import sem
+        import re as _re
         for n in ast.walk(pi.node):
-            if isinstance(n, ast.If) and isinstance(n.test, ast.Compare) and len(n.test.ops) == 1 \
-                    and isinstance(n.test.ops[0], ast.NotEq) and any(isinstance(b, ast.Raise) for b in n.body):
-                l, r = n.test.left, n.test.comparators[0]
-                if isinstance(l, ast.Call) and dotted(l.func) == "len" and dotted(l.args[0]) == f"self.{attr}":
-                    v = self.prog.try_fold(pi.module, r)
-                    if isinstance(v, int):
-                        return v
+            if not isinstance(n, ast.If):
+                continue
+            # the branch that raises runs when len(self.attr) differs from N - whatever the spelling of the test
+            for pol, branch in ((True, n.body), (False, n.orelse)):
+                if not any(isinstance(b, ast.Raise) for b in branch):
+                    continue
+                for a in sem.atoms(n.test, pol):
+                    m_ = _re.fullmatch(r"!eq\((.+),(.+)\)", a)
+                    if not m_:
+                        continue
+                    for x, y in ((m_.group(1), m_.group(2)), (m_.group(2), m_.group(1))):
+                        if x == f"len(self.{attr})":
+                            try:
+                                v = int(y)
+                            except ValueError:
+                                v = self.prog.try_fold(pi.module, ast.parse(y, mode="eval").body)
+                            if isinstance(v, int):
+                                return v
         return None
 
     def ev(self, e: ast.AST, fi: FuncInfo, prefix: str, env: dict) -> Layout:
